@@ -80,8 +80,12 @@ def unit_quat(draw):
 def quat(draw, lo_exp=-3, hi_exp=3, unit_prob=0.15):
     """Non-zero quaternion: unit quaternion times a log-uniform scale."""
     u = np.array(draw(unit_quat()))
-    if draw(f(0, 1)) < unit_prob:
+    k = draw(f(0, 1))
+    if k < unit_prob:
         return u.tolist()
+    if k < 2 * unit_prob:
+        # a unit quaternion that has drifted: length 1 +- 10^-k, k in [1, 14]
+        return ((1.0 + draw(st.sampled_from([1.0, -1.0])) * 10.0 ** (-draw(f(1.0, 14.0)))) * u).tolist()
     s = draw(log_uniform(lo_exp, hi_exp))
     return (s * u).tolist()
 
@@ -90,7 +94,8 @@ def quat(draw, lo_exp=-3, hi_exp=3, unit_prob=0.15):
 def near_unit_quat(draw, spread=0.3):
     """Quaternion whose length differs moderately from one (states of bodies and rod nodes)."""
     u = np.array(draw(unit_quat()))
-    s = 1.0 + draw(f(-spread, spread)) if draw(st.booleans()) else 1.0
+    kind = draw(st.integers(0, 3))
+    s = 1.0 + draw(f(-spread, spread)) if kind < 2 else 1.0 if kind == 2 else 1.0 + draw(st.sampled_from([1.0, -1.0])) * 10.0 ** (-draw(f(1.0, 14.0)))
     return (s * u).tolist()
 
 
